@@ -4,6 +4,7 @@ import (
 	"bytes"
 	"encoding/json"
 	"fmt"
+	"strings"
 	"unicode/utf8"
 
 	"github.com/bytedance/sonic"
@@ -32,9 +33,20 @@ func init() { register("C20", func() Case { return &C20Case{} }) }
 func drawC20(t *rapid.T) Case {
 	c := &C20Case{}
 	long := thorough()
-	switch rapid.IntRange(0, 5).Draw(t, "datasrc") {
+	switch rapid.IntRange(0, 6).Draw(t, "datasrc") {
 	case 0:
 		c.Data = gen.RawBytes(t, 200)
+	case 2:
+		// dense runs of bytes that expand most when escaped (6 output bytes for 1 or 3 input bytes):
+		// the output buffer fills up several times within one call
+		var b bytes.Buffer
+		for k := rapid.IntRange(1, 3).Draw(t, "nruns"); k > 0; k-- {
+			b.WriteString(strings.Repeat("plain ", rapid.IntRange(0, 3).Draw(t, "plain")))
+			unit := []string{"<", ">", "&", "\u2028", "\u2029", "<&>", "\"", "\\", "\x00", "\x1f", "\n", "\xff", "\xe2\x80", "é<"}[rapid.IntRange(0, 13).Draw(t, "unit")]
+			n := []int{1, 7, 15, 16, 17, 31, 32, 33, 63, 64, 65, 100, 200, 500, 1000, 2500}[rapid.IntRange(0, 15).Draw(t, "runlen")]
+			b.WriteString(strings.Repeat(unit, n))
+		}
+		c.Data = b.Bytes()
 	case 1:
 		// exact length sweep 0..200 with one special byte somewhere
 		n := rapid.IntRange(0, 200).Draw(t, "len")
